@@ -400,7 +400,7 @@ func (k *cacheKnown) classify(b []byte) string {
 }
 
 // abstractCache: sorted tokens `A<cid>=<L|R><F<cid>|P|X|D>` for final names, `T=<F<cid>|P|X>` for temp
-// files (APKINDEX/*.tmp, expand-apk*/stream-*), `U=<name>` for anything else.
+// files (APKINDEX/*.tmp, expand-apk*/stream-*, <pkg>/*.dat.tar.*.tmp), `U=<name>` for anything else.
 func abstractCache(dir string, k *cacheKnown) string {
 	var toks []string
 	filepath.WalkDir(dir, func(p string, d fs.DirEntry, err error) error {
@@ -421,7 +421,7 @@ func abstractCache(dir string, k *cacheKnown) string {
 			desc = k.classify(b)
 		}
 		switch {
-		case strings.HasPrefix(parent, "expand-apk") || (parent == "APKINDEX" && strings.HasSuffix(base, ".tmp")):
+		case strings.HasPrefix(parent, "expand-apk") || strings.HasSuffix(base, ".tmp"):
 			if isLink {
 				toks = append(toks, "U=link:"+base)
 			} else {
